@@ -152,6 +152,40 @@ def run(ck: vlib.Check):
             if m is None or m != p:
                 mism += 1
                 first = first or (j, p, m)
+    # second order (implementation only, judged against the property directly): the first fault raised as the error
+    # classes file systems really produce (PermissionError for a file open elsewhere, FileNotFoundError), and - where
+    # the code went on after a fault instead of stopping - a second fault at every later step
+    second = []
+    for c, r in zip(cfgs, base_runs):
+        if r.get("harness_error") or c["ep"] == 5:
+            continue
+        for i, name in enumerate(r["log"]):
+            if name in ("replace", "copy", "arch-open", "write-chk"):
+                for exc in ("perm", "notfound"):
+                    second.append(dict(c, step=i, kind=0, prim=name, exc=exc))
+    res2 = run_jobs(second)
+    follow = []
+    for j, obs in zip(second, res2):
+        ck.evaluations += 1
+        ck.note_case(json.dumps(j, sort_keys=True))
+        if obs.get("harness_error"):
+            continue
+        bad = atomic_violation(j, obs)
+        if bad:
+            ck.violation(f"{bad} ({j['exc']} error before step {j['step']} {j['prim']})", {"kind": "fault", "job": j, "observed": obs}, True)
+        for k in range(j["step"] + 1, obs["steps"]):
+            for kind2 in (0, 2):
+                follow.append(dict(j, step2=k, kind2=kind2))
+    for j, obs in zip(follow, run_jobs(follow)):
+        ck.evaluations += 1
+        ck.note_case(json.dumps(j, sort_keys=True))
+        if obs.get("harness_error"):
+            continue
+        bad = atomic_violation(j, obs)
+        if bad:
+            ck.violation(f"{bad} ({j['exc']} error before step {j['step']} {j['prim']}, then a second fault at step {j['step2']})",
+                         {"kind": "fault", "job": j, "observed": obs}, True)
+    ck.extra["second_order_runs"] = {"first_fault_as_os_specific_error": len(second), "two_faults": len(follow)}
     if drv_ok:
         ck.corr_count("fault-injected runs: real code + real StormLib vs the model's execution for the same fault",
                       len(jobs), mism)
